@@ -1,7 +1,9 @@
 """Sidecar contracts for pjrpc/server/dispatcher.py."""
 from pyvc.api import contract
-from spec.prims import class_is, ev_value, implies, is_absent, member, old, same, tlen, uf, ufv
-from spec.server import config_ok, method_failed, method_returned, ran_once, registered, request_ok
+from spec.prims import (at_entry, class_is, ev_value, implies, is_absent, member, old, same, seq_concat, seq_same, tlen,
+                        uf, ufv)
+from spec.server import (config_ok, handler_event_ok, handlers_for, method_failed, method_returned, ran_once,
+                         registered, request_ok)
 from spec.user import error_ok
 
 from pjrpc.common.common import UNSET
@@ -35,6 +37,7 @@ class HandleRpcMethod:
              'context': 'any'}
     raises_only = ('pjrpc.common.exceptions:JsonRpcError',)
     modifies = ('$trace',)
+    cross_check = False     # inputs include abstract user callables: no native cross-check yet
     result_type = 'encodable'
 
     def ensures_ran_once(self, method_name, params, context, result):
@@ -52,6 +55,7 @@ class HandleRpcRequest:
              'context': 'any'}
     raises_only = ('pjrpc.common.exceptions:JsonRpcError',)
     modifies = ('$trace',)
+    cross_check = False     # inputs include abstract user callables: no native cross-check yet
 
     def requires_config(self, request, context):
         return config_ok(self) and request_ok(request)
@@ -65,7 +69,67 @@ class HandleRpcRequest:
         if request._id is None:
             return result is UNSET
         return (isinstance(result, Response) and class_is(result, Response) and same(result._id, request._id)
-                and same(result._result, ev_value(tlen() - 1)) and result._error is UNSET)
+                and same(result._result, ev_value(tlen() - 1)) and result._result is not UNSET
+                and result._error is UNSET)
 
     def ensures_on_JsonRpcError(self, request, context, exc):
         return method_failed(self, request._method, request._params, old(tlen()), exc)
+
+
+@contract('pjrpc.server.dispatcher:Dispatcher._handle_request',
+          also=('pjrpc.server.dispatcher:AsyncDispatcher._handle_request',),
+          props=['C01', 'C02', 'C03', 'C12', 'C11'])
+class HandleRequest:
+    types = {'self': 'pjrpc.server.dispatcher:BaseDispatcher', 'request': '=pjrpc.common.v20:Request',
+             'context': 'any'}
+    raises_only = ()            # C01: never raises (A-user: error handlers do not raise)
+    modifies = ('$trace',)
+    cross_check = False     # inputs include abstract user callables: no native cross-check yet
+    loop0 = {'ghosts': ['trace'], 'index': 'k'}
+
+    def requires_config(self, request, context):
+        return config_ok(self) and request_ok(request)
+
+    # ---- loop over it.chain(generic handlers, handlers for the raised error's code)  (C12)
+    def invariant0_chain(self, request, context, error, xs, k):
+        e0 = at_entry(error)
+        return seq_same(xs, seq_concat(handlers_for(self, None), handlers_for(self, e0.code)))
+
+    def invariant0_events(self, request, context, error, xs, k):
+        # every iteration appends exactly one event: the call of the k-th handler with the request, the
+        # context and the error returned by the previous handler (the raised error first); `error` is
+        # what the last handler returned.  (Stated for the latest event; it is re-proved at every k.)
+        b = at_entry(tlen())
+        e0 = at_entry(error)
+        if tlen() != b + k:
+            return False
+        if k == 0:
+            return same(error, e0)
+        prev = e0 if k == 1 else ev_value(b + k - 2)
+        return handler_event_ok(b + k - 1, xs[k - 1], request, context, prev) and same(error, ev_value(b + k - 1))
+
+    def invariant0_error(self, request, context, error, xs, k):
+        return isinstance(error, JsonRpcError) and error_ok(error)
+
+    # ---- postconditions
+    def ensures_response(self, request, context, result):
+        # C02: notifications are never answered (success or failure); a call gets the identical id
+        if request._id is None:
+            return result is UNSET
+        return (isinstance(result, Response) and class_is(result, Response) and same(result._id, request._id)
+                and ((result._result is UNSET) != (result._error is UNSET))
+                and (result._error is UNSET or (isinstance(result._error, JsonRpcError) and error_ok(result._error))))
+
+    def ensures_success(self, request, context, result):
+        # C12: handlers never run for successful requests; C04: the return value is the result unchanged
+        if request._id is None or result._error is not UNSET:
+            return True
+        return method_returned(self, request._method, request._params, old(tlen()), result._result)
+
+    def ensures_failure_without_handlers(self, request, context, result):
+        # C03 end to end: with no error handlers configured the error sent is the one of the failure class
+        if request._id is None or result._error is UNSET:
+            return True
+        if len(self._error_handlers) != 0:
+            return True
+        return method_failed(self, request._method, request._params, old(tlen()), result._error)
